@@ -5,6 +5,8 @@ def plan(tier):
     conds = []
     conds += C.t_instr_conds("C17", tier)
     conds += C.t_upd_conds("C17", tier)
+    from vf.props.c12 import match_conds
+    conds += match_conds("h_step_disp", "C17", tier, "H17-stepdisp", fcases=(0,) if tier == "quick" else (0, 1, 2, 3))
     return {
         "conds": conds,
         "min_classes": 150,
